@@ -70,6 +70,19 @@ Fixpoint dup_in (bk : bytes) (ts : list table) : bool :=
 Definition has_dup (s : state) (bk : bytes) : bool :=
   dup_in bk (st_l0 s) || existsb (fun lv => dup_in bk (List.concat (lv_shards lv))) (st_lvls s).
 
+(** ... or the aftermath of that: a merge of such tables (compactBuildTables takes
+    its sources in the same order and keeps the first copy) persisted the OLDER
+    copy, so the state no longer holds the latest acknowledged write of an
+    internal key, only an overwritten write of the same key and version (the
+    ghost sequence numbers of the dumped records say which write each one is).
+    Such a state is outside [content_ok], the hypothesis of every C06 theorem. *)
+Definition lost_newest (s : state) (ws : list rec) (bk : bytes) : bool :=
+  existsb (fun w =>
+             bytes_eqb (r_key w) bk &&
+             let cs := filter (fun x => bytes_eqb (r_key x) bk && (r_ver x =? r_ver w)) (contents s) in
+             match cs with [] => false | _ => forallb (fun x => r_seq x <? r_seq w) cs end) ws.
+Definition stale (s : state) (ws : list rec) (bk : bytes) : bool := has_dup s bk || lost_newest s ws bk.
+
 (** class 2 (C06-F10): DB.NewIterator lists every column family and every
     version.  Outside the class: every record of the merged stream is in the
     default column family and no base key occurs twice. *)
@@ -90,17 +103,17 @@ Definition multi_visible (s : state) (readTs : N) (pw : list rec) (u : bytes) : 
 
 (** * Per-probe verdicts: (mismatch, violation, class) *)
 
-Definition classify_scan (s : state) (kind : N) (readTs : N) (pw : list rec) (rv allv : bool)
+Definition classify_scan (s : state) (ws : list rec) (kind : N) (readTs : N) (pw : list rec) (rv allv : bool)
            (agree : bool) (obs : list item) (spec : list sitem) : N :=
   if negb agree then 0
   else
     let bad := bad_keys (map to_sitem obs) spec in
     let nonnil := match bad with [] => false | _ => true end in
     let f9 := (kind =? 1) && rv && negb allv in
-    if nonnil && all_default obs && forallb (fun u => has_dup s (sbase u)) bad then 1
+    if nonnil && all_default obs && forallb (fun u => stale s ws (sbase u)) bad then 1
     else if (kind =? 0) && negb (db_simple s) then 2
     else if f9 && nonnil && all_default obs
-            && forallb (fun u => has_dup s (sbase u) || multi_visible s readTs pw u) bad then 3
+            && forallb (fun u => stale s ws (sbase u) || multi_visible s readTs pw u) bad then 3
     else 0.
 
 Fixpoint probe_verdict (now : N) (s : state) (ws : list rec) (p : probe) : bool * bool * N :=
@@ -111,13 +124,13 @@ Fixpoint probe_verdict (now : N) (s : state) (ws : list rec) (p : probe) : bool 
       let sp := spec_scan now ws [] max_u64 (sopts_of_d o a) in
       let agree := items_eqb m obs in
       let ok := all_default obs && sitems_eqb (map to_sitem obs) sp in
-      (negb agree, negb ok, if ok then 0 else classify_scan s 0 max_u64 [] (negb (d_asc o)) false agree obs sp)
+      (negb agree, negb ok, if ok then 0 else classify_scan s ws 0 max_u64 [] (negb (d_asc o)) false agree obs sp)
   | PTxn readTs pw o a obs =>
       let m := txn_list current now s readTs pw o a in
       let sp := spec_scan now ws pw readTs (sopts_of_t o a) in
       let agree := items_eqb m obs in
       let ok := all_default obs && sitems_eqb (map to_sitem obs) sp in
-      (negb agree, negb ok, if ok then 0 else classify_scan s 1 readTs pw (o_rev o) (o_all o) agree obs sp)
+      (negb agree, negb ok, if ok then 0 else classify_scan s ws 1 readTs pw (o_rev o) (o_all o) agree obs sp)
   | PGets readTs pw obs =>
       let model u := txn_get current now s readTs pw (sbase u) in
       let oeq (a b : option bytes) := match a, b with
@@ -130,7 +143,7 @@ Fixpoint probe_verdict (now : N) (s : state) (ws : list rec) (p : probe) : bool 
       let badkv := filter (fun kv => negb (oeq (spec_get now ws pw readTs (fst kv)) (snd kv))) obs in
       (negb agree, negb ok,
        if ok then 0
-       else if agree && forallb (fun kv => has_dup s (sbase (fst kv))) badkv then 1
+       else if agree && forallb (fun kv => stale s ws (sbase (fst kv))) badkv then 1
        else 0)
   end.
 
